@@ -52,10 +52,6 @@ package lib
 //@   ensures result.0 >= 0 && len(b.B) == old(len(b.B)) + result.0 && cap(b.B) >= len(b.B)
 //@   ensures result.1 != nil || result.0 > 0 || true
 
-//@ func (b *Buffer) Append
-//@   trusted
-//@   modifies b.B, elems(b.B)
-//@   ensures len(b.B) == old(len(b.B)) + len(v)
 
 // lib.Map[K,V]: a Go map behind an RWMutex. The methods are translated in place at their call
 // sites (the lock operations are no-ops of the sequential layer; mutual exclusion is A-ATOMIC).
@@ -71,3 +67,28 @@ package lib
 //@   inline
 //@ func (*Map[K, V]).LoadOrStore
 //@   inline
+
+// the byte-level appenders the EDF encoders are written with
+//@ func (b *Buffer) AppendByte
+//@   props C11
+//@   modifies b.B, elems(b.B)
+//@   ensures [one_more_byte] len(b.B) == old(len(b.B)) + 1 && b.B[old(len(b.B))] == v
+//@   ensures [earlier_bytes_kept] forall i int :: 0 <= i && i < old(len(b.B)) ==> b.B[i] == old(b.B[i])
+//@   ensures [same_array_or_a_new_one] ptr(b.B) == old(ptr(b.B)) || fresh(b.B)
+//@ func (b *Buffer) Extend
+//@   trusted
+//@   modifies b.B, elems(b.B)
+//@   ensures len(b.B) == old(len(b.B)) + n && result == b.B[old(len(b.B)):len(b.B)] && (forall i int :: 0 <= i && i < old(len(b.B)) ==> b.B[i] == old(b.B[i]))
+//@   ensures [same_array_or_a_new_one] ptr(b.B) == old(ptr(b.B)) || fresh(b.B)
+//@ func (b *Buffer) AppendString
+//@   trusted
+//@   modifies b.B, elems(b.B)
+//@   ensures [bytes_of_the_string_appended] len(b.B) == old(len(b.B)) + len(s) && (forall i int :: 0 <= i && i < len(s) ==> b.B[old(len(b.B)) + i] == s[i])
+//@   ensures [earlier_bytes_kept] forall i int :: 0 <= i && i < old(len(b.B)) ==> b.B[i] == old(b.B[i])
+//@   ensures [same_array_or_a_new_one] ptr(b.B) == old(ptr(b.B)) || fresh(b.B)
+//@ func (b *Buffer) Append
+//@   props C11
+//@   modifies b.B, elems(b.B)
+//@   ensures [bytes_appended] len(b.B) == old(len(b.B)) + len(v) && (forall i int :: 0 <= i && i < len(v) ==> b.B[old(len(b.B)) + i] == old(v[i]))
+//@   ensures [earlier_bytes_kept] forall i int :: 0 <= i && i < old(len(b.B)) ==> b.B[i] == old(b.B[i])
+//@   ensures [same_array_or_a_new_one] ptr(b.B) == old(ptr(b.B)) || fresh(b.B)
